@@ -105,6 +105,11 @@ func (r *InboundRequestSingleFlight) GetOrCreate(ctx *Context, response *GraphQL
 			if request.Err != nil {
 				return nil, request.Err
 			}
+			if request.Data == nil {
+				// The leader finished before we registered as a follower, so it shared nothing:
+				// not de-duplicated, the caller executes on its own and must not touch the leader's request.
+				return nil, nil
+			}
 			return request, nil
 		case <-ctx.ctx.Done():
 			return nil, ctx.ctx.Err()
